@@ -13,7 +13,8 @@ def build(ctx):
         ctx.diag.append("translator failed: " + out[-300:])
     C.prove(ctx, ["Props/C17.v", "Props/C17Lib.v", "Props/C17Share.v"],
             ["Oblig/C17Obl.v", "Proto/ServerFacts.v", "Model/RouteTable.v", "Oblig/C17LibObl.v", "Proto/ServerLibFacts.v",
-             "Oblig/C17ShareObl.v", "Proto/ServerShareFacts.v", "Proto/ServerShareStable.v", "Model/ShareTable.v"])
+             "Oblig/C17ShareObl.v", "Proto/ServerShareFacts.v", "Proto/ServerShareStable.v", "Proto/ServerShareDerived.v",
+             "Model/ShareTable.v"])
     ok, out = C.build_harness()
     ctx.log("go build", out)
     if not ok:
@@ -142,7 +143,8 @@ def share_correspondence(ctx, n, sub="share", compare=True):
     stats = {"steps": 0, "read_of_stable_file_checked": 0, "reads_in_all_stable_state_checked": 0,
              "pure_request_checked": 0, "label_not_well_formed": 0, "target_stable": 0, "target_not_stable": 0,
              "states_all_stable": 0, "stored_file_observations": 0, "stored_file_observations_stable": 0,
-             "files_stored_by_create": [0, 0], "files_stored_by_flatten_segment_balance": [0, 0]}
+             "files_stored_by_create": [0, 0], "files_stored_by_flatten_segment_balance": [0, 0],
+             "flatten_stored_result": 0, "flatten_stored_result_label_wf_flat_result": 0}
     prev = {}
     for case, chk, obs in zip(open(cases), open(checks), open(impl)):
         if case.strip() == "S":
@@ -168,6 +170,11 @@ def share_correspondence(ctx, n, sub="share", compare=True):
             key = "files_stored_by_create" if case.startswith("CREATE") else "files_stored_by_flatten_segment_balance"
             stats[key][0] += int(a)      # stable
             stats[key][1] += int(b)      # stored
+        if f.get("wfr") in ("0", "1"):
+            stats["flatten_stored_result"] += 1
+            stats["flatten_stored_result_label_wf_flat_result"] += int(f["wfr"])
+            if f["wfr"] == "1" and f.get("new") not in ("1/1", "0/0"):
+                ctx.diag.append("C17_flatten_result_stable: hypotheses hold, the stored file is not stable in the model: " + case.strip()[:200])
         same = all(cur.get(k) == v for k, v in prev.items())
         why = None
         if f.get("k") in ("pure", "none"):
